@@ -167,36 +167,51 @@ def shaInit : Sha256H := sha256InitialH.map UInt32.ofNat
   ((p.getD (4*i) 0).toUInt32 <<< 24) ||| ((p.getD (4*i+1) 0).toUInt32 <<< 16) |||
   ((p.getD (4*i+2) 0).toUInt32 <<< 8) ||| (p.getD (4*i+3) 0).toUInt32
 
-/-- message schedule: `w[i] = ((s1 ~mod+ w[i - 7]) ~mod+ s0) ~mod+ w[i - 16]` for i in 16..63 -/
-def shaSchedule (p : Array UInt8) : Array UInt32 := Id.run do
-  let mut w : Array UInt32 := Array.replicate 64 0
-  for i in [0:16] do
-    w := w.set! i (beWord p i)
-  for i in [16:64] do
-    let w2 := w.getD (i - 2) 0
-    let s1 := (w2 >>> 10) ^^^ ((w2 <<< 15) ||| (w2 >>> 17)) ^^^ ((w2 <<< 13) ||| (w2 >>> 19))
-    let w15 := w.getD (i - 15) 0
-    let s0 := (w15 >>> 3) ^^^ ((w15 <<< 25) ||| (w15 >>> 7)) ^^^ ((w15 <<< 14) ||| (w15 >>> 18))
-    w := w.set! i (((s1 + w.getD (i - 7) 0) + s0) + w.getD (i - 16) 0)
-  return w
+/-- one iteration of `while i < 64 { w2 = w[i - 2] … w[i] = ((s1 ~mod+ w[i - 7]) ~mod+ s0) ~mod+ w[i - 16] }` -/
+def shaSchedStep (w : Array UInt32) (i : Nat) : Array UInt32 :=
+  let w2 := w.getD (i - 2) 0
+  let s1 := (w2 >>> 10) ^^^ ((w2 <<< 15) ||| (w2 >>> 17)) ^^^ ((w2 <<< 13) ||| (w2 >>> 19))
+  let w15 := w.getD (i - 15) 0
+  let s0 := (w15 >>> 3) ^^^ ((w15 <<< 25) ||| (w15 >>> 7)) ^^^ ((w15 <<< 14) ||| (w15 >>> 18))
+  w.setIfInBounds i (((s1 + w.getD (i - 7) 0) + s0) + w.getD (i - 16) 0)
+
+/-- message schedule: `w[0x00] = (p[0] << 24) | …` for 16 words, then the `while i < 64` loop (i = 16..63) -/
+def shaSchedule (p : Array UInt8) : Array UInt32 :=
+  let w0 : Array UInt32 := ((List.range 64).map (fun i => if i < 16 then beWord p i else 0)).toArray
+  (List.range' 16 48).foldl shaSchedStep w0
+
+/-- the eight working variables a … h -/
+structure ShaVars where
+  a : UInt32
+  b : UInt32
+  c : UInt32
+  d : UInt32
+  e : UInt32
+  f : UInt32
+  g : UInt32
+  h : UInt32
+deriving DecidableEq, Repr
+
+/-- one iteration of the second `while i < 64` loop of `hasher.up` -/
+def shaRound (w : Array UInt32) (v : ShaVars) (i : Nat) : ShaVars :=
+  let t1 := v.h
+  let t1 := t1 + (((v.e <<< 26) ||| (v.e >>> 6)) ^^^ ((v.e <<< 21) ||| (v.e >>> 11)) ^^^ ((v.e <<< 7) ||| (v.e >>> 25)))
+  let t1 := t1 + ((v.e &&& v.f) ^^^ ((0xFFFFFFFF ^^^ v.e) &&& v.g))
+  let t1 := t1 + shaK.getD i 0
+  let t1 := t1 + w.getD i 0
+  let t2 := ((v.a <<< 30) ||| (v.a >>> 2)) ^^^ ((v.a <<< 19) ||| (v.a >>> 13)) ^^^ ((v.a <<< 10) ||| (v.a >>> 22))
+  let t2 := t2 + ((v.a &&& v.b) ^^^ (v.a &&& v.c) ^^^ (v.b &&& v.c))
+  { h := v.g, g := v.f, f := v.e, e := v.d + t1, d := v.c, c := v.b, b := v.a, a := t1 + t2 }
 
 /-- The body of the 64-byte `iterate` arm of `hasher.up` (= the `while true` body of
     `checksum_bitvec256`): one application of the SHA-256 compression function. -/
-def shaCompress (hh : Sha256H) (block : List UInt8) : Sha256H := Id.run do
+def shaCompress (hh : Sha256H) (block : List UInt8) : Sha256H :=
   let w := shaSchedule block.toArray
-  let mut a := hh.getD 0 0; let mut b := hh.getD 1 0; let mut c := hh.getD 2 0; let mut d := hh.getD 3 0
-  let mut e := hh.getD 4 0; let mut f := hh.getD 5 0; let mut g := hh.getD 6 0; let mut h := hh.getD 7 0
-  for i in [0:64] do
-    let mut t1 := h
-    t1 := t1 + (((e <<< 26) ||| (e >>> 6)) ^^^ ((e <<< 21) ||| (e >>> 11)) ^^^ ((e <<< 7) ||| (e >>> 25)))
-    t1 := t1 + ((e &&& f) ^^^ ((0xFFFFFFFF ^^^ e) &&& g))
-    t1 := t1 + shaK.getD i 0
-    t1 := t1 + w.getD i 0
-    let mut t2 := ((a <<< 30) ||| (a >>> 2)) ^^^ ((a <<< 19) ||| (a >>> 13)) ^^^ ((a <<< 10) ||| (a >>> 22))
-    t2 := t2 + ((a &&& b) ^^^ (a &&& c) ^^^ (b &&& c))
-    h := g; g := f; f := e; e := d + t1; d := c; c := b; b := a; a := t1 + t2
-  return #[a + hh.getD 0 0, b + hh.getD 1 0, c + hh.getD 2 0, d + hh.getD 3 0,
-           e + hh.getD 4 0, f + hh.getD 5 0, g + hh.getD 6 0, h + hh.getD 7 0]
+  let v0 : ShaVars := { a := hh.getD 0 0, b := hh.getD 1 0, c := hh.getD 2 0, d := hh.getD 3 0,
+                        e := hh.getD 4 0, f := hh.getD 5 0, g := hh.getD 6 0, h := hh.getD 7 0 }
+  let v := (List.range 64).foldl (shaRound w) v0
+  #[v.a + hh.getD 0 0, v.b + hh.getD 1 0, v.c + hh.getD 2 0, v.d + hh.getD 3 0,
+    v.e + hh.getD 4 0, v.f + hh.getD 5 0, v.g + hh.getD 6 0, v.h + hh.getD 7 0]
 
 /-- The hasher struct.  `bufData` always has 64 entries in reachable states. -/
 structure ShaHasher where
